@@ -49,7 +49,19 @@ def make_components(rng, d, seed, nout=None):
             comps.append(hooks.comp_hash(seed + j))
         else:
             comps.append(hooks.comp_multilinear([(rng.uniform(0.5, 2), rng.uniform(-1, 1)) for _ in range(d)]))
+    if rng.random() < 0.1:
+        # an integer-valued integrand (counts / labels / indicator sums): eval() returns an integer-typed array
+        comps = Comps(hooks.comp_int_hash(seed + j) for j in range(nout))
+        comps.integer_valued = True
     return comps
+
+
+class Comps(list):
+    integer_valued = False
+
+
+def mkf(comps):
+    return hooks.VFunction(comps, integer_valued=getattr(comps, "integer_valued", False))
 
 
 def tol_for(parts, base=1e-12):
@@ -89,7 +101,7 @@ def run_standard(case, res):
             return G.LejaGrid(a, b)
         return G.GaussLegendreGrid(a, b)
     comps = make_components(rng, d, case["seed"])
-    f = hooks.VFunction(comps)
+    f = mkf(comps)
     op = Integration(f=f, grid=mk(), dim=d, print_level=100, log_level=100)
     combi = StandardCombi(a, b, operation=op, print_output=False, log_level=100, print_level=100)
     cfg = {"grid": gname, "d": d, "lmin": lmin, "lmax": lmax, "a": a.tolist(), "b": b.tolist(), "nout": len(comps)}
@@ -106,7 +118,7 @@ def run_standard(case, res):
                     combi([tuple(float(a[k] + rng.random() * (b[k] - a[k])) for k in range(d))])
             res.count("standard_object_history")
         scheme, err, result = combi.perform_operation(lmin, lmax)
-    f2 = hooks.VFunction(comps)
+    f2 = mkf(comps)
     g2 = mk()
     parts = [np.atleast_1d(g2.integrate(f2, list(g.levelvector), a, b)) * g.coefficient for g in scheme]
     exp = np.sum(parts, axis=0)
@@ -144,10 +156,10 @@ def run_dimadaptive(case, res):
     nout = rng.choice([1, 2])
     comps = [hooks.comp_peak([rng.uniform(0.2, 0.8) for _ in range(d)], rng.uniform(0.2, 0.6)) if rng.random() < 0.5
              else (lambda g: (lambda p: 2.0 + g(p)))(hooks.comp_smooth(case["seed"] + j, d)) for j in range(nout)]
-    f = hooks.VFunction(comps)
+    f = mkf(comps)
     # reference: fine Gauss-Legendre product rule from the harness
     from vlib import refmodels as rm
-    ref = rm.gauss_legendre_box(lambda P: np.array([hooks.VFunction(comps).eval(tuple(p)) for p in P]), a, b, 12 if d == 2 else 8)
+    ref = rm.gauss_legendre_box(lambda P: np.array([mkf(comps).eval(tuple(p)) for p in P]), a, b, 12 if d == 2 else 8)
     op = Integration(f=f, grid=mk(), dim=d, reference_solution=np.atleast_1d(ref), print_level=100, log_level=100)
     c = DimAdaptiveCombi(a, b, op)
     tol = rng.choice([1e-2, 1e-3, 1e-4])
@@ -156,7 +168,7 @@ def run_dimadaptive(case, res):
     res.sample = {"config": cfg}
     with contextlib.redirect_stdout(io.StringIO()):
         scheme, diff, combiintegral, errors, num_points = c.perform_combi(1, 2, tol, maxp)
-    f2, g2 = hooks.VFunction(comps), mk()
+    f2, g2 = mkf(comps), mk()
     parts = [np.atleast_1d(g2.integrate(f2, list(g.levelvector), a, b)) * g.coefficient for g in scheme]
     exp = np.sum(parts, axis=0)
     res.close("recomputation_dimadaptive", np.atleast_1d(np.asarray(combiintegral, dtype=float)), exp, tol_for(parts),
@@ -191,7 +203,7 @@ class ObsDW(hooks.Observer):
         super().after_evaluate(c, r)
         where = "evaluation #%d" % self.evals
         reported = np.array(c.operation.get_result(), dtype=float)
-        f2 = hooks.VFunction(self.comps)
+        f2 = mkf(self.comps)
         g2 = dw_grid(self.cfg)
         parts = []
         for g in c.scheme:
@@ -225,7 +237,7 @@ def run_dimwise(case, res):
     d = cfg["d"]
     comps = make_components(rng, d, case["seed"])
     res.sample = {"config": cfg}
-    f = hooks.VFunction(comps)
+    f = mkf(comps)
     err = hooks.RandErr(cfg["errseed"], cfg["profile"], d, cfg["a"], cfg["b"])
     obs = ObsDW(res, cfg, comps, err)
     c = dimwise.build(cfg, f, obs, grid=dw_grid(cfg))
@@ -234,7 +246,7 @@ def run_dimwise(case, res):
     final = np.array(c.operation.get_result(), dtype=float)
     # (d) points and weights of the final state
     pts, w = c.get_points_and_weights()
-    f2 = hooks.VFunction(comps)
+    f2 = mkf(comps)
     vals = np.array([f2.eval(tuple(p)) for p in pts])
     sw = (vals * np.asarray(w)[:, None]).sum(axis=0)
     tol = 1e-12 * np.maximum(np.sum(np.abs(vals * np.asarray(w)[:, None]), axis=0), 1e-300) * 8
@@ -249,7 +261,7 @@ def run_dimwise(case, res):
     npts = c.get_total_num_points()
     outs = []
     for rev in (False, True):
-        ft = hooks.VFunction(comps)
+        ft = mkf(comps)
         et = hooks.RandErr(cfg["errseed"], cfg["profile"], d, cfg["a"], cfg["b"])
         ot = hooks.Observer(10 ** 9, et, max_depth=10 ** 9, max_points=None)
         ct = dimwise.build(cfg, ft, ot, grid=dw_grid(cfg))
@@ -285,7 +297,7 @@ class ObsES(hooks.Observer):
         super().after_evaluate(c, r)
         where = "evaluation #%d" % self.evals
         reported = np.array(c.operation.get_result(), dtype=float)
-        f2 = hooks.VFunction(self.comps)
+        f2 = mkf(self.comps)
         g2 = extsplit.make_grid(self.cfg)
         parts = []
         for area in extsplit.leaves(c):
@@ -332,7 +344,7 @@ def run_extsplit(case, res):
     comps = make_components(rng, d, case["seed"])
     res.sample = {"config": cfg}
     res.count("grid_" + cfg["grid"])
-    f = hooks.VFunction(comps)
+    f = mkf(comps)
     err = extsplit.make_err(cfg)
     obs = ObsES(res, cfg, comps, err if cfg["profile"] != "real" else None)
     c = extsplit.build(cfg, f, obs)
@@ -355,7 +367,7 @@ def run_extsplit(case, res):
     npts = c.get_total_num_points()
     outs = []
     for rev in (False, True):
-        ft = hooks.VFunction(comps)
+        ft = mkf(comps)
         et = extsplit.make_err(cfg)
         ot = hooks.Observer(10 ** 9, et if cfg["profile"] != "real" else None, max_depth=10 ** 9, max_points=None)
         ot.deepest = lambda c_: 0
